@@ -1,10 +1,11 @@
 #!/usr/bin/env python3
-"""usage: store_mutation.py <prop id> <k> <confirm line> : copies a confirmed sub-agent change into /verif/seeded/<id>-<k>/"""
+"""usage: store_mutation.py <prop id> <k> <confirm line> [<stored index>] : copies a confirmed sub-agent change into /verif/seeded/<id>-<k>/"""
 import json, shutil, sys
 from pathlib import Path
 pid, k, confirm = sys.argv[1], sys.argv[2], sys.argv[3]
-src = Path(f"/tmp/mut-{pid}/OUT")
-dst = Path(f"/verif/seeded/{pid}-{k}")
+dk = sys.argv[4] if len(sys.argv) > 4 else k  # optional: index under which the change is stored
+src = Path(f"/tmp/mut/{pid}/OUT")
+dst = Path(f"/verif/seeded/{pid}-{dk}")
 dst.mkdir(parents=True, exist_ok=True)
 shutil.copy(src / f"mutation{k}.diff", dst / "patch.diff")
 shutil.copy(src / f"demo{k}.rs", dst / "demo.rs")
